@@ -50,6 +50,16 @@ Proof.
   apply aware_datetime_inconsistent.
 Qed.
 
+(* fixed 353d81a (was finding string_id_instance_unquoted): a foreign key to a string-keyed class takes an
+   instance, stores its id, and the equality query by that instance -- rendered as a quoted string -- finds the row *)
+Definition inst_007 : pyval := PObjS [48; 48; 55].
+Definition inst_abc : pyval := PObjS [97; 98; 99].
+Lemma string_id_instance C w var :
+  let o := run C TForeignKeyStr inst_007 w var in
+  o_write o = Ok tt /\ o_stored o = SText [48; 48; 55] /\ o_db o = Some (Ok (PStr [48; 48; 55])) /\
+  o_found o = Some (Ok true) /\ o_found (run C TForeignKeyStr inst_abc w var) = Some (Ok true).
+Proof. destruct w, var; vm_compute; repeat split; reflexivity. Qed.
+
 (* ---- findings that live in sqlite's floating point: stated relative to the engine behaviour
    observed on the bundled sqlite 3.40.1 (the corpus cases record it) *)
 Definition big_int : Z := 9223372036854775809%Z.            (* 2^63 + 1 *)
